@@ -645,7 +645,7 @@ def execute(case, ctx):
             if docstr is not False:
                 for n_ in ast.walk(ref):
                     for f_ in ('body', 'orelse', 'finalbody'):
-                        for k_, st_ in enumerate(getattr(n_, f_, None) or ()):
+                        for k_, st_ in enumerate(v_ if isinstance(v_ := getattr(n_, f_, None), list) else ()):
                             if isinstance(st_, ast.Expr) and isinstance(st_.value, ast.Constant) and isinstance(st_.value.value, str) and st_.end_lineno > st_.lineno:
                                 if docstr is True or (k_ == 0 and f_ == 'body' and isinstance(n_, (ast.FunctionDef, ast.AsyncFunctionDef, ast.ClassDef, ast.Module))):
                                     reindentable.add((st_.lineno, st_.col_offset))
